@@ -151,16 +151,20 @@ class Program:
     # private helpers of the reference tree: (file, class) -> {name: number of parameters}.  The rules address these by
     # name; a private helper may be renamed freely, so a rename is undone in the model before anything is looked up.
     PRIVATE_HELPERS = {
-        ('qubovert/_pcbo.py', None): {'_get_bounds': 2, '_special_constraints_eq_zero': 3, '_special_constraints_le_zero': 5},
-        ('qubovert/_pcbo.py', 'PCBO'): {'_append_constraint': 3, '_next_ancilla': 1, '_pop_constraint': 2},
-        ('qubovert/_pcso.py', None): {'_empty_pcbo': 1},
-        ('qubovert/_pcso.py', 'PCSO'): {'_append_constraint': 3},
-        ('qubovert/_pubo.py', 'PUBO'): {'_check_key_valid': 1, '_reduce_degree': 5},
-        ('qubovert/_puso.py', 'PUSO'): {'_check_key_valid': 1, '_create_pubo': 1, '_to_puso': 1},
-        ('qubovert/sim/_anneal.py', None): {'_create_spin_schedule': 4, '_package_spin_results': 4},
-        ('qubovert/sim/_anneal_results.py', None): {'_recompute_best': 1},
-        ('qubovert/utils/_dict_arithmetic.py', None): {'_generate_key_value_pairs': 2},
-        ('qubovert/utils/_solve_bruteforce.py', None): {'_solve_bruteforce': 5},
+        ('qubovert/_pcbo.py', None): {'_get_bounds': ['P', 'bounds'],
+                                      '_special_constraints_eq_zero': ['pcbo', 'P', 'lam'],
+                                      '_special_constraints_le_zero': ['pcbo', 'P', 'lam', 'log_trick', 'bounds']},
+        ('qubovert/_pcbo.py', 'PCBO'): {'_append_constraint': ['self', 'key', 'constraint'], '_next_ancilla': ['self'],
+                                        '_pop_constraint': ['self', 'key']},
+        ('qubovert/_pcso.py', 'PCSO'): {'_append_constraint': ['self', 'key', 'constraint']},
+        ('qubovert/_pcso.py', None): {'_empty_pcbo': ['pcso']},
+        ('qubovert/_pubo.py', 'PUBO'): {'_check_key_valid': ['key'], '_reduce_degree': ['self', 'D', 'deg', 'lam', 'pairs']},
+        ('qubovert/_puso.py', 'PUSO'): {'_check_key_valid': ['key'], '_create_pubo': ['self'], '_to_puso': ['self']},
+        ('qubovert/sim/_anneal.py', None): {'_create_spin_schedule': ['spin_model', 'anneal_duration', 'temperature_range', 'schedule'],
+                                            '_package_spin_results': ['states', 'values', 'offset', 'reverse_mapping']},
+        ('qubovert/sim/_anneal_results.py', None): {'_recompute_best': ['results']},
+        ('qubovert/utils/_dict_arithmetic.py', None): {'_generate_key_value_pairs': ['args', 'kwargs']},
+        ('qubovert/utils/_solve_bruteforce.py', None): {'_solve_bruteforce': ['D', 'all_solutions', 'valid', 'spin', 'value']},
     }
 
     def _undo_private_renames(self):
@@ -185,11 +189,13 @@ class Program:
             missing = [k for k in table if k not in defs]
             fresh = [k for k in defs if k not in table]
             for k in missing:
-                cand = [d for d in fresh if arity(defs[d]) == table[k]]
-                rivals = [k2 for k2 in missing if k2 != k and table[k2] == table[k]]
+                cand = [d for d in fresh if arity(defs[d]) == len(table[k])]
+                rivals = [k2 for k2 in missing if k2 != k and len(table[k2]) == len(table[k])]
                 if len(cand) == 1 and not rivals:
                     self.renamed[cand[0]] = k
                     fresh.remove(cand[0])
+        self._undo_level_moves(by_rel)
+        self._undo_param_renames(by_rel)
         if not self.renamed:
             return
         for m in self.modules.values():
@@ -202,6 +208,105 @@ class Program:
                     n.attr = self.renamed[n.attr]
                 elif isinstance(n, ast.alias) and n.name in self.renamed:
                     n.name = self.renamed[n.name]
+
+    def _undo_level_moves(self, by_rel):
+        """A private helper that was turned from a module-level function into a method (first parameter = the former
+        first argument) or back is put where the reference tree has it, and its calls are rewritten accordingly."""
+        self.moved = []
+        for (rel, cname), table in self.PRIVATE_HELPERS.items():
+            m = by_rel.get(rel)
+            if m is None:
+                continue
+            classes = [n for n in m.tree.body if isinstance(n, ast.ClassDef)]
+            for name, ref in table.items():
+                if cname is None:
+                    if any(isinstance(n, ast.FunctionDef) and n.name == name for n in m.tree.body):
+                        continue
+                    hits = [(c, f) for c in classes for f in c.body if isinstance(f, ast.FunctionDef) and f.name == name
+                            and not f.decorator_list and len(f.args.args) == len(ref)]
+                    if len(hits) != 1:
+                        continue
+                    c, f = hits[0]
+                    if any(name in self.PRIVATE_HELPERS.get((rel, c.name), {}) for _ in [0]):
+                        continue        # that class has a reference method of this name itself
+                    c.body.remove(f)
+                    if not c.body:
+                        c.body.append(ast.Pass())
+                    m.tree.body.insert(m.tree.body.index(c), f)
+                    f._parent = m.tree
+                    self.moved.append('%s.%s -> %s' % (c.name, name, name))
+                    for mod in self.modules.values():
+                        for n in ast.walk(mod.tree):
+                            if isinstance(n, ast.Call) and isinstance(n.func, ast.Attribute) and n.func.attr == name:
+                                recv = n.func.value
+                                n.args = [recv] + list(n.args)
+                                n.func = ast.copy_location(ast.Name(id=name, ctx=ast.Load()), n.func)
+                else:
+                    cl = [c for c in classes if c.name == cname]
+                    if not cl or any(isinstance(f, ast.FunctionDef) and f.name == name for f in cl[0].body):
+                        continue
+                    hits = [f for f in m.tree.body if isinstance(f, ast.FunctionDef) and f.name == name
+                            and not f.decorator_list and len(f.args.args) == len(ref)]
+                    if len(hits) != 1 or ref[:1] != ['self']:
+                        continue
+                    f = hits[0]
+                    m.tree.body.remove(f)
+                    cl[0].body.append(f)
+                    f._parent = cl[0]
+                    self.moved.append('%s -> %s.%s' % (name, cname, name))
+                    for mod in self.modules.values():
+                        for n in ast.walk(mod.tree):
+                            if isinstance(n, ast.Call) and isinstance(n.func, ast.Name) and n.func.id == name and n.args \
+                                    and not isinstance(n.args[0], ast.Starred):
+                                recv = n.args[0]
+                                n.func = ast.copy_location(ast.Attribute(value=recv, attr=name, ctx=ast.Load()), n.func)
+                                n.args = list(n.args[1:])
+        if self.moved:
+            for m in self.modules.values():
+                for n in ast.walk(m.tree):
+                    for c in ast.iter_child_nodes(n):
+                        c._parent = n
+
+    def _undo_param_renames(self, by_rel):
+        """Parameters of the private helpers back to their reference names (definition, body, keyword arguments of the
+        calls in the same module): positional match, only when the parameter count is unchanged."""
+        inv = {v: k for k, v in self.renamed.items()}
+        for (rel, cname), table in self.PRIVATE_HELPERS.items():
+            m = by_rel.get(rel)
+            if m is None:
+                continue
+            body = m.tree.body
+            if cname is not None:
+                cl = [n for n in body if isinstance(n, ast.ClassDef) and n.name == cname]
+                if not cl:
+                    continue
+                body = cl[0].body
+            for fn in [n for n in body if isinstance(n, ast.FunctionDef)]:
+                ref_name = self.renamed.get(fn.name, fn.name)
+                ref = table.get(ref_name)
+                if ref is None:
+                    continue
+                a = fn.args
+                cur = a.posonlyargs + a.args + ([a.vararg] if a.vararg else []) + a.kwonlyargs + ([a.kwarg] if a.kwarg else [])
+                if len(cur) != len(ref) or [x.arg for x in cur] == ref:
+                    continue
+                mp = {x.arg: r for x, r in zip(cur, ref) if x.arg != r}
+                stores = {n.id for n in ast.walk(fn) if isinstance(n, ast.Name) and isinstance(n.ctx, ast.Store)}
+                if set(mp.values()) & (stores | {x.arg for x in cur if x.arg not in mp}):
+                    continue        # a reference name is taken by another variable of the function
+                for x in cur:
+                    x.arg = mp.get(x.arg, x.arg)
+                for n in ast.walk(fn):
+                    if isinstance(n, ast.Name) and n.id in mp:
+                        n.id = mp[n.id]
+                for n in ast.walk(m.tree):
+                    if isinstance(n, ast.Call):
+                        f = n.func
+                        callee = f.id if isinstance(f, ast.Name) else (f.attr if isinstance(f, ast.Attribute) else None)
+                        if callee == fn.name:
+                            for k in n.keywords:
+                                if k.arg in mp:
+                                    k.arg = mp[k.arg]
 
     def _nested(self, outer):
         for s in ast.walk(outer.node):
@@ -396,6 +501,11 @@ class Program:
         if f is None:
             raise AnalysisError("function %s not found (anchor vanished)" % qual)
         return f
+
+    def opt_funcs(self, quals):
+        """The functions among `quals` that exist.  For private helpers only: a helper that was inlined into its callers
+        and deleted is analysed as part of those callers (which the rule lists contain anyway)."""
+        return [self.functions[q] for q in quals if q in self.functions]
 
     def has_func(self, qual):
         return qual in self.functions
